@@ -48,6 +48,42 @@ def rule_W_ENUM(ctx):
 
 
 
+def rule_W_MACRO(ctx):
+    """the inline-Narsese macros, read from one expansion each (the repo's cfg-guarded verification hooks, MANIFEST.hooks)"""
+    f = ctx.facts
+    ctx.rule("W-MACRO", "enum_nse!(literal) parses `literal.chars().filter(|c| !c.is_whitespace()).collect()` -- every Unicode whitespace character "
+             "is deleted before the enum parser (which itself skips U+0020 only) sees the text, and nothing else is filtered; lexical_nse!(literal) "
+             "hands the literal to the lexical parser unchanged (that parser strips whitespace itself: idealize_env / T-SPACE)")
+    ee = [it for p, it in f.hir.items() if p.endswith("impl_enum::macros::__verif_enum_nse_expansion")]
+    le = [it for p, it in f.hir.items() if p.endswith("impl_lexical::macros::__verif_lexical_nse_expansion")]
+    if len(ee) != 1 or len(le) != 1:
+        raise AnchorMissing("verification hooks __verif_enum_nse_expansion / __verif_lexical_nse_expansion (extraction runs with --cfg arcj137442_narsese_rs_verif)")
+    ctx.fn(ee[0]); ctx.fn(le[0])
+    pcs = hir.find_calls(ee[0]["body"], "parse_chars")
+    ok, why = False, "no parse_chars call in the expansion"
+    if len(pcs) == 1:
+        a = strip(hir.call_args(pcs[0])[-1])
+        chain = []
+        while a["k"] == "MethodCall":
+            chain.append(a)
+            a = strip(a["recv"])
+        names = [c["method"] for c in chain]
+        why = "adapter chain %s over %s" % (names[::-1], a["k"])
+        if names == ["collect", "filter", "chars"] and a["k"] == "Lit":
+            cl = strip(chain[1]["args"][0])
+            body = strip(cl["body"]) if cl["k"] == "Closure" else None
+            par = [q.get("name") for q in cl.get("params", [])] if cl["k"] == "Closure" else []
+            good = body is not None and body["k"] == "Unary" and body.get("op") in ("!", "Not") and strip(body["e"])["k"] == "MethodCall" \
+                and (strip(body["e"]).get("def") or "").endswith("<impl char>::is_whitespace") and len(par) == 1 \
+                and field_path(strip(body["e"])["recv"]) == (par[0],)
+            ok = bool(good)
+            why = "filter predicate is %s" % ((strip(body["e"]).get("def") if body is not None and body["k"] == "Unary" and strip(body["e"])["k"] == "MethodCall" else body and body["k"]),)
+    ctx.ob("W-MACRO", "enum_nse! deletes exactly the Unicode whitespace characters before parsing", ok, why)
+    lp = [c for c in hir.find_calls(le[0]["body"]) if (hir.callee(c) or "").endswith("impl_lexical::parser::parse")]
+    ok = len(lp) == 1 and strip(hir.call_args(lp[0])[-1])["k"] == "Lit"
+    ctx.ob("W-MACRO", "lexical_nse! hands the literal to the lexical parser unchanged", ok, "")
+
+
 def run(ctx):
     f = ctx.facts
     rule_W_ENUM(ctx)
@@ -161,8 +197,9 @@ def run(ctx):
     _lskel.rule_L_SKELETON(ctx, which=('lexical',), floor=10)
     import tables as _t3
     _t3.rule_T_SPACE(ctx, _t3.Tables(ctx), models=("enum", "lex"))
+    rule_W_MACRO(ctx)
     ctx.undecided = ["that removing ALL spaces never glues two tokens for every value (the copula look-ahead and identifier classes make "
-                     "this value-dependent)", "the macro's whitespace stripping is an instance of `remove all spaces` and has no separate rule"]
+                     "this value-dependent)", "the macro's whitespace stripping is an instance of `remove all spaces`: W-MACRO decides which characters it strips, the effect on the parse is the clause above"]
     ctx.assumptions = ["the flag correlation modelled by the typestate (ok = match result {Ok=>true,Err=>false}) is the only one the parser's macros create"]
     ctx.trusted = ["rustc MIR", "mirfacts driver", "python typestate engine incl. its two reviewed exceptions (parse_atom prefix+name)"]
     return ("Typestate analysis of the enum parser's 49 cursor-handling functions on MIR with interprocedural summaries: every one of the "
